@@ -28,12 +28,13 @@ def limit_fn(F):
     c = [b for p_, b in sorted(F.bodies.items()) if b.crate == "selium_protocol" and b.kind in ("Fn", "AssocFn") and not b.is_coroutine and
          any(rv.get("variant") == "PayloadTooLarge" for i, j, pl, rv, s in K.aggregates(b, "selium_std::errors::ProtocolError"))]
     if len(c) != 1:
-        raise AnchorMissing("expected exactly one function building ProtocolError::PayloadTooLarge in selium_protocol, found %s" % [b.path for b in c])
+        return None          # no separate helper (the test is written out in encode / decode): nothing to keep
     return c[0]
 
 
 def dec_keep(F):
-    return (limit_fn(F).path, TRY_FROM)
+    lf = limit_fn(F)
+    return ((lf.path,) if lf is not None and "codec::MessageCodec" not in lf.path else ()) + (TRY_FROM,)
 VARIANTS = ["RegisterPublisher", "RegisterSubscriber", "RegisterReplier", "RegisterRequestor",
             "Message", "BatchMessage", "Error", "Ok"]
 CONSUMERS = {"bytes::buf::buf_impl::Buf::advance", "bytes::buf::buf_impl::Buf::get_u8", "bytes::bytes_mut::BytesMut::split_to",
@@ -238,46 +239,49 @@ def d2(ctx, F):
 
 
 def d3(ctx, F):
-    v = limit_fn(F)
-    ctx.touch(v)
-    # cmp skeleton
-    found = False
-    for i, bl in enumerate(v.blocks):
-        sc = flow.switch_condition(v, i)
-        if sc and sc.get("kind") == "cmp":
-            a_l = flow.root(v, sc["a"])
-            b_l = flow.root(v, sc["b"])
+    """the 1 MiB limit, both directions. Evaluated on encode / decode with their private helpers inlined, so it does not matter whether the
+    test lives in a helper (whatever its name) or in the codec methods themselves."""
+    LIMIT = 1048576
+    enc0 = F.one_body(r"^<selium_protocol::codec::MessageCodec as tokio_util::codec::encoder::Encoder<selium_protocol::frame::Frame>>::encode$")
+    dec0 = F.one_body(r"^<selium_protocol::codec::MessageCodec as tokio_util::codec::decoder::Decoder>::decode$")
+    ctx.touch(enc0, dec0)
+    frame_api = [p_ for p_ in F.bodies if p_.startswith("selium_protocol::frame::Frame::")] + [TRY_FROM]
+    for b0, side in ((enc0, "encode"), (dec0, "decode")):
+        b = F.inlined(b0, keep=frame_api)
+        guards = []
+        for i, bl in enumerate(b.blocks):
+            if bl.get("cleanup") or bl.get("dead"):
+                continue
+            sc = flow.switch_condition(b, i)
+            if not (sc and sc.get("kind") == "cmp"):
+                continue
+            ra, rb_ = flow.root(b, sc["a"]) if sc["a"].get("k") != "const" else ("const", sc["a"]), flow.root(b, sc["b"]) if sc["b"].get("k") != "const" else ("const", sc["b"])
             op = sc["op"]
-            if a_l[0] == "const" and b_l[0] == "arg":
-                a_l, b_l, op = b_l, a_l, flow._FLIP[op]
-            if a_l[0] == "arg" and a_l[1] == 1 and b_l[0] == "const":
-                found = True
-                limit = flow.const_of(b_l[1])
-                item = b_l[1].get("item")
-                ctx.check(op == "Gt" and limit == 1048576, "C05.D3.limit-comparison", "validate:cmp",
-                          "validate_payload_length rejects exactly when length > %s (%s); found: length %s %s" % (1048576, item, op, limit), v.span)
-                # true edge must not produce Ok; false edge must not produce Err
-                t_ok = [1 for i2, j, pl, rv, s in K.aggregates(v, "core::result::Result", v.reachable(sc["true"]) - v.reachable(sc["false"])) if rv["variant"] == "Ok" and pl["l"] == 0]
-                f_err = [1 for i2, j, pl, rv, s in K.aggregates(v, "core::result::Result", v.reachable(sc["false"]) - v.reachable(sc["true"])) if rv["variant"] == "Err"]
-                f_ok = [1 for i2, j, pl, rv, s in K.aggregates(v, "core::result::Result", v.reachable(sc["false"]) - v.reachable(sc["true"])) if rv["variant"] == "Ok" and pl["l"] == 0]
-                ctx.check(not t_ok and not f_err and f_ok, "C05.D3.limit-edges", "validate:edges",
-                          "the over-limit edge returns Err and the within-limit edge returns Ok", v.span)
-    ctx.check(found, "C05.D3.limit-comparison", "validate:no-cmp", "validate_payload_length compares its argument with the limit constant", v.span)
-
-    enc = F.one_body(r"^<selium_protocol::codec::MessageCodec as tokio_util::codec::encoder::Encoder<selium_protocol::frame::Frame>>::encode$")
-    dec = F.inlined(F.one_body(r"^<selium_protocol::codec::MessageCodec as tokio_util::codec::decoder::Decoder>::decode$"), keep=dec_keep(F))
-    for b, side in ((enc, "encode"), (dec, "decode")):
-        vc = b.calls_to(v.path)
-        if not ctx.check(len(vc) >= 1, "C05.D3.limit-enforced", "%s:no-validate" % side,
-                         "%s calls validate_payload_length" % side, b.span):
+            val = None
+            if rb_[0] == "const" and flow.const_of(rb_[1]) == LIMIT:
+                val = sc["a"]
+            elif ra[0] == "const" and flow.const_of(ra[1]) == LIMIT:
+                val, op = sc["b"], flow._FLIP[op]
+            if val is not None:
+                guards.append((i, sc, op, val))
+        if not ctx.check(len(guards) == 1, "C05.D3.limit-enforced", "%s:no-validate" % side,
+                         "%s compares a length with the 1 MiB limit exactly once (found %d comparisons)" % (side, len(guards)), b0.span):
             continue
-        vcall = vc[0]
-        te = K.try_edges(b, vcall)
-        if not ctx.check(te is not None and te[0] is not None and te[1] is not None, "C05.D3.limit-enforced", "%s:validate-result-ignored" % side,
-                         "the result of validate_payload_length is propagated with `?`", vcall.span):
-            continue
-        cont, brk, _ = te
-        # buffer-touching calls: anything taking the buffer (&mut BytesMut arg #2 of encode/decode) mutably
+        gbb, sc, op, val = guards[0]
+        # value `op` LIMIT holds on the true edge
+        if op in ("Gt", "Ge"):
+            over, within = sc["true"], sc["false"]
+        else:
+            over, within = sc["false"], sc["true"]
+        ctx.check(op in ("Gt", "Le"), "C05.D3.limit-comparison", "validate:cmp" if side == "encode" else "validate:cmp:decode",
+                  "%s rejects exactly when length > %d (found: length %s limit on the %s edge)" % (side, LIMIT, op, "rejecting" if op in ("Gt", "Ge") else "accepting"), b.blocks[gbb]["term"].get("span", b0.span))
+        o_r = flow.reach_avoiding(b, [over], [gbb])
+        w_r = flow.reach_avoiding(b, [within], [gbb])
+        too_large = [i for i, j, pl, rv, s in K.aggregates(b, "selium_std::errors::ProtocolError") if rv["variant"] == "PayloadTooLarge"]
+        oks_over = [i for i, j, pl, rv, s in K.aggregates(b, "core::result::Result", o_r - w_r) if rv["variant"] == "Ok" and pl["l"] == 0]
+        ctx.check(bool(set(too_large) & o_r) and not (set(too_large) & (w_r - o_r)) and not oks_over, "C05.D3.limit-edges", "validate:edges" if side == "encode" else "validate:edges:decode",
+                  "%s: the over-limit edge builds PayloadTooLarge and never Ok; the within-limit edge does not" % side, b0.span)
+        # buffer-touching calls: anything taking the buffer (&mut BytesMut: arg 3 of encode, arg 2 of decode) mutably
         buf = 3 if side == "encode" else 2
         bufvals = flow.derived(b, {buf}, calls="adapters")
         touching = []
@@ -288,43 +292,32 @@ def d3(ctx, F):
                 continue
             if any(op_local(a) in bufvals and "&mut" in (c.arg_tys[k] if k < len(c.arg_tys) else "") for k, a in enumerate(c.args)):
                 touching.append(c)
-        if side == "encode":
-            ctx.floor("C05.D3.limit-enforced.encode-writes", len(touching), 1)
-        else:
-            ctx.floor("C05.D3.limit-enforced.decode-buffer-ops", len(touching), 1)
+        ctx.floor("C05.D3.limit-enforced.%s" % ("encode-writes" if side == "encode" else "decode-buffer-ops"), len(touching), 1)
         for c in touching:
-            dom = b.dominates(cont, c.bb)
-            ctx.check(dom, "C05.D3.limit-enforced", "%s:unvalidated:%s" % (side, strip_generics(c.callee)),
-                      "%s: %s on the buffer happens only after the length passed validate_payload_length" % (side, c.name()), c.span)
-        # Err edge leaves without touching the buffer
-        r = flow.reach_avoiding(b, [brk], [])
-        leak = [c for c in touching if c.bb in r]
-        ctx.check(not leak, "C05.D3.limit-enforced", "%s:err-edge-continues" % side,
-                  "%s: the over-limit edge returns without touching the buffer" % side, vcall.span)
-        # validated value is the one used
-        vroot = flow.root_local(b, vcall.args[0])
-        if side == "decode":
-            st = b.calls_to("bytes::bytes_mut::BytesMut::split_to")
-            for c in st:
-                ctx.check(flow.root_local(b, c.args[1]) == vroot, "C05.D3.validated-value-used", "decode:split_to-other-length",
-                          "split_to uses the validated length", c.span)
-            ctx.floor("C05.D3.validated-value-used.split_to", len(st), 1)
-        else:
-            glc = b.calls_to("selium_protocol::frame::Frame::get_length")
-            lv = flow.derived(b, {glc[0].dest["l"]}, calls="adapters") if glc else set()
-            ctx.check(vroot in lv, "C05.D3.validated-value-used", "encode:validates-other-value",
-                      "encode validates the value returned by get_length", vcall.span)
-        # both sides must measure the same quantity against the limit — the payload length itself, not a derived amount (e.g. the
-        # length plus the 9 marker bytes): otherwise frames near the limit are accepted by one side and refused by the other
+            ctx.check(b.dominates(within, c.bb) and c.bb not in (o_r - w_r), "C05.D3.limit-enforced", "%s:unvalidated:%s" % (side, strip_generics(c.callee)),
+                      "%s: %s on the buffer happens only after the length passed the limit test" % (side, c.name()), c.span)
+        leak = [c for c in touching if c.bb in (o_r - w_r)]
+        ctx.check(not leak, "C05.D3.limit-enforced", "%s:err-edge-continues" % side, "%s: the over-limit edge returns without touching the buffer" % side, b0.span)
+        # both sides measure the same quantity — the payload length itself, not a derived amount (e.g. length + the 9 marker bytes):
+        # otherwise frames near the limit are accepted by one side and refused by the other
+        vroot = flow.root_local(b, val)
         if side == "encode":
-            ps = flow.payload_source(b, vcall.args[0])
+            ps = flow.payload_source(b, val)
             same = ps is not None and ps[0] == "call" and strip_generics(ps[1].callee) == "selium_protocol::frame::Frame::get_length"
             what = "the payload length returned by get_length, unmodified"
+            # and that value is what goes into the prefix
+            pw = [c for c in b.calls() if strip_generics(c.callee) in BE_WRITE]
+            used = bool(pw) and all((flow.payload_source(b, c.args[1]) or ("x",))[0] == "call" and flow.payload_source(b, c.args[1])[1] is (ps[1] if ps else None) for c in pw[:1])
+            ctx.check(used, "C05.D3.validated-value-used", "encode:validates-other-value", "the length written as the prefix is the value that was validated", (pw or [b0])[0].span)
         else:
-            r0 = flow.root(b, vcall.args[0], through_calls=())
+            r0 = flow.root(b, val, through_calls=())
             same = r0[0] == "call" and strip_generics(r0[1].callee) in BE_READ
             what = "the length read from the frame header, unmodified"
-        ctx.check(same, "C05.D3.same-quantity", "%s:limit-on-derived-value" % side, "%s applies the limit to %s" % (side, what), vcall.span)
+            st = b.calls_to("bytes::bytes_mut::BytesMut::split_to")
+            for c in st:
+                ctx.check(flow.root_local(b, c.args[1]) == vroot, "C05.D3.validated-value-used", "decode:split_to-other-length", "split_to uses the validated length", c.span)
+            ctx.floor("C05.D3.validated-value-used.split_to", len(st), 1)
+        ctx.check(same, "C05.D3.same-quantity", "%s:limit-on-derived-value" % side, "%s applies the limit to %s" % (side, what), b.blocks[gbb]["term"].get("span", b0.span))
 
 
 def d4(ctx, F):
